@@ -507,9 +507,9 @@ def scenic_layer(c, quick, only=None):
         c.violation("grammar-sentences", "operator table out of step with docs/reference/operators.rst or the grammar: " + pr["problem"], pr, no_input=True)
     comp = S.compositions()
     if quick:
-        # quick: every Scenic x anything pair among operators; Python-only children in specifier / statement positions rotate with the seed
+        # quick: every Scenic-in-Scenic operator pair; Scenic/Python mixed pairs and the specifier / statement positions rotate with the seed
         # (Scenic children in those positions: every other one, also rotating; the thorough tier runs all of them)
-        comp = [j for i, j in enumerate(comp) if j["kind"] == "op" or not ((i + c.seed) % (3 if j["py_child"] else 2))]
+        comp = [j for i, j in enumerate(comp) if (j["kind"] == "op" and not j["py_child"] and not j["py_parent"]) or not ((i + c.seed) % (3 if j["kind"] != "op" and j["py_child"] else 2))]
     comp += S.temporal_compositions()
     jobs += comp
     c.cov["scenic_sentences"] = dict(rules=len({s_["rule"] for s_ in sents}), alternatives=len({(s_["rule"], s_["alt"]) for s_ in sents}), sentences=len(sents),
@@ -555,6 +555,50 @@ def scenic_layer(c, quick, only=None):
             c.violation("invalid-coverage", "an alternative listed as unreachable is reached (or no longer exists): remove it from c10_invalid.UNREACHED", dict(alternative=k), no_input=True)
 
 
+def locator_correspondence(c):
+    """invalid_arguments alternative 0: the reported position must be the argument coq/C10/ErrorActions.v `locate` names, for every
+    shape (positional only / keyword only / mixed / starred / `**`); the model is evaluated by the kernel (gen/C10Locate.v)."""
+    shapes = [(["a"], []), (["a", "bb"], []), (["*a"], []), (["a", "*bb", "c"], []), ([], ["k=1"]), ([], ["k=1", "jj=2"]), (["a"], ["k=1"]), (["a", "b"], ["k=1", "*cc"]),
+              (["a"], ["**k"]), (["*a"], ["k=1", "**j"]), ([], ["**k", "j=1"]), (["a", "b", "c"], ["k=1", "j=2", "i=3"])]
+    jobs, meta = [], []
+    for pos, kw in shapes:
+        # pegen's `args` puts starred arguments that come after a keyword into the positional list
+        order = pos + kw
+        text = "ego = new Object\nf(" + ", ".join(order) + ", *)\n"
+        cols, col = {}, 3
+        for i, a in enumerate(order):
+            cols[i] = col
+            col += len(a) + 2
+        P = [cols[i] for i, a in enumerate(order) if i < len(pos) or (a.startswith("*") and not a.startswith("**"))]
+        K = [cols[i] for i, a in enumerate(order) if i >= len(pos) and not (a.startswith("*") and not a.startswith("**"))]
+        jobs.append(dict(id=len(jobs), text=text, kind="locator"))
+        meta.append((P, K))
+    res, _, _ = par_sent(jobs, [])
+    res = sorted(res, key=lambda r: r["id"])
+    lst = lambda l: "[" + "; ".join(str(x) for x in l) + "]"
+    goals = []
+    for (P, K), r in zip(meta, res):
+        obs = r.get("offset") if r["outcome"] == "syntax-error" else None
+        goals.append(f"Goal locate nat {lst(P)} {lst(K)} = {'Some ' + str(obs) if obs is not None else 'None'}. Proof. vm_compute. reflexivity. Qed.")
+    header = "From Coq Require Import List.\nFrom Scenic Require Import C10.ErrorActions.\nImport ListNotations.\n"
+    ok, out = common.run_coq_cases("C10Locate", header + "\n".join(goals) + "\n", timeout=600)
+    bad = None
+    if not ok:
+        m = re.search(r"line (\d+)", out)
+        bad = int(m.group(1)) - header.count("\n") - 1 if m else None
+    for i, ((P, K), r, j) in enumerate(zip(meta, res, jobs)):
+        c.count(("locator", j["text"]), nontrivial=True)
+        c.hist("locator:" + r["outcome"])
+        c.cov["traces_validated_against_impl"] += 1
+        if r["outcome"] != "syntax-error":
+            judge(c, dict(r, text=j["text"], mutation="invalid-alternative:invalid_arguments:0", sha=None))
+        elif bad is not None and i == bad:
+            c.violation("correspondence", "the error of invalid_arguments alternative 0 is not located at the argument the model's `locate` names (last keyword argument, else last positional one)",
+                        dict(text=j["text"], route="ast", positional_columns=P, keyword_columns=K, observed_offset=r.get("offset"), msg=r.get("msg")))
+    if not ok and bad is None:
+        c.violation("correspondence", "the generated locator cases no longer check against the model", dict(log=out[-1200:]), no_input=True)
+
+
 def main():
     c = Check(PID, "other")
     c.cov["rule"] = ("mutants of the .scenic programs under examples/ and tests/ (14 operators: delete/insert/replace/swap characters, tokens and lines, "
@@ -588,10 +632,12 @@ def main():
     only = os.environ.get("VERIF_C10_ONLY")          # development knob: regex over the round-3 input kinds
     if only:
         scenic_layer(c, quick, only)
+        locator_correspondence(c)
         c.finish()
     grammar_wf(c)
     injection(c)
     scenic_layer(c, quick)
+    locator_correspondence(c)
 
     # docs/reference samples: every sample accepted when the baseline was recorded must still be accepted
     docs = common.run_impl("impl_c10.py", dict(kind="docs"))["results"]
